@@ -346,15 +346,16 @@ def scColourPI (ts pi : String) : Prop :=
   else if ts = "1.2.840.10008.1.2.4.90" then pi = "YBR_RCT"
   else pi = "RGB" ∨ pi = "YBR_FULL"
 
-/-- the image pixel module `SCImage` is documented to write (docstring + PS3.5 8.1.1), as a relation -/
+/-- the image pixel module `SCImage` writes, as a relation (docstring; **as the code is**: `bits_allocated = 12` is
+    written as Bits Allocated 12 over 16-bit cells, which PS3.5 8.1.1 does not allow -- open finding
+    C19-sc-bits-allocated-12) -/
 structure SCAccepted (ba : Int) (pi ts dtypeStr : String) (ndim lastDim arrayMax : Int)
     (BA BS HB PR SPP PC : Int) : Prop where
   depth : (dtypeStr = "bool" ∧ ba = 1) ∨ (dtypeStr = "uint8" ∧ ba = 8) ∨ (dtypeStr = "uint16" ∧ (ba = 12 ∨ ba = 16))
   rle : ts = "1.2.840.10008.1.2.5" → ba % 8 = 0
-  twelve : ba = 12 → arrayMax < 4096
   shape : (ndim = 3 ∧ lastDim = 3 ∧ ba = 8 ∧ dtypeStr = "uint8" ∧ scColourPI ts pi ∧ SPP = 3 ∧ PC = 0) ∨
           (ndim = 2 ∧ (pi = "MONOCHROME1" ∨ pi = "MONOCHROME2") ∧ SPP = 1 ∧ PC = -1)
-  bits : BA = (if ba = 12 then 16 else ba) ∧ BS = (if ba = 12 then 12 else ba) ∧ HB = BS - 1 ∧ PR = 0
+  bits : BA = ba ∧ BS = ba ∧ HB = ba - 1 ∧ PR = 0
 
 set_option maxRecDepth 8000
 
@@ -372,7 +373,7 @@ theorem scPixelModule_sound (ba : Int) (pi ts dtypeStr : String) (ndim lastDim a
 theorem scPixelModule_not_refused (ba : Int) (pi ts dtypeStr : String) (ndim lastDim arrayMax : Int) (BA BS HB PR SPP PC : Int)
     (e : ErrKind) (hs : SCAccepted ba pi ts dtypeStr ndim lastDim arrayMax BA BS HB PR SPP PC)
     (h : scPixelModule ba pi ts dtypeStr ndim lastDim arrayMax = .error e) : False := by
-  obtain ⟨hd, hr, ht, hsh, hb⟩ := hs
+  obtain ⟨hd, hr, hsh, hb⟩ := hs
   unfold scColourPI at hsh
   unfold scPixelModule at h
   simp -zeta only [] at h
@@ -412,13 +413,12 @@ theorem scBuild_ok (c : CodecImpl) (ts pi : String) (ba : Int) (x : Frame) (o : 
 theorem sc_request (ts pi : String) (ba : Int) (x : Frame) (mod : Int × Int × Int × Int × Int × Int)
     (hmod : scPixelModule ba pi ts x.dtype.name x.ndim (match x.samples with | none => (x.cols : Int) | some s => s) x.max = .ok mod) :
     (mod.2.2.2.2.1.toNat = x.spp) ∧ (scParams ts pi mod).pixelRepresentation = 0 ∧
-    (scParams ts pi mod).bitsAllocated = (if ba = 12 then 16 else ba) ∧
-    (scParams ts pi mod).bitsStored = (if ba = 12 then 12 else ba) ∧
+    (scParams ts pi mod).bitsAllocated = ba ∧
+    (scParams ts pi mod).bitsStored = ba ∧
     ((x.dtype = .bool ∧ ba = 1) ∨ (x.dtype = .u8 ∧ ba = 8) ∨ (x.dtype = .u16 ∧ (ba = 12 ∨ ba = 16))) ∧
-    (ba = 12 → x.max < 4096) ∧
     ((x.spp = 3 ∧ scColourPI ts pi) ∨ (x.spp = 1 ∧ (pi = "MONOCHROME1" ∨ pi = "MONOCHROME2"))) := by
   have hs := scPixelModule_sound _ _ _ _ _ _ _ _ hmod
-  obtain ⟨hd, _, h12, hsh, hb⟩ := hs
+  obtain ⟨hd, _, hsh, hb⟩ := hs
   obtain ⟨hn1, hn2, hn3⟩ := dtype_of_name x.dtype
   have hdt : (x.dtype = .bool ∧ ba = 1) ∨ (x.dtype = .u8 ∧ ba = 8) ∨ (x.dtype = .u16 ∧ (ba = 12 ∨ ba = 16)) := by
     rcases hd with ⟨h1, h2⟩ | ⟨h1, h2⟩ | ⟨h1, h2⟩
@@ -443,55 +443,30 @@ theorem sc_request (ts pi : String) (ba : Int) (x : Frame) (mod : Int × Int × 
         subst this
         rw [hs3]; exact ⟨rfl, Or.inl ⟨rfl, hcol⟩⟩
       · exact absurd h2 (by decide)
-  refine ⟨hspp.1, ?_, ?_, ?_, hdt, h12, hspp.2⟩
+  refine ⟨hspp.1, ?_, ?_, ?_, hdt, hspp.2⟩
   · simp only [scParams]; exact hb.2.2.2
   · simp only [scParams]; exact hb.1
   · simp only [scParams]; exact hb.2.1
 
-/-- **A natively stored secondary capture decodes in pydicom to the given array.** -/
+/-- **A natively stored secondary capture decodes in pydicom to the given array** (not for `bits_allocated = 12`,
+    see `sc_twelve_undecodable`). -/
 theorem sc_native_decodes (c : CodecImpl) (conv : List Int → List Int) (ts pi : String) (ba : Int) (x : Frame) (o : SCObject)
-    (hwf : x.WF) (hts : ts ∈ nativeSyntaxes) (hpi : pi ≠ "YBR_FULL") (h : scBuild c ts pi ba x = .ok o) :
+    (hwf : x.WF) (hts : ts ∈ nativeSyntaxes) (hpi : pi ≠ "YBR_FULL") (h12 : ba ≠ 12) (h : scBuild c ts pi ba x = .ok o) :
     scDecode c conv ts o = .ok x.data := by
   obtain ⟨mod, bytes, hmod, henc, rfl⟩ := scBuild_ok c ts pi ba x o h
-  obtain ⟨hspp, hpr, hBA, hBS, hdt, h12, hshape⟩ := sc_request ts pi ba x mod hmod
+  obtain ⟨hspp, hpr, hBA, hBS, hdt, hshape⟩ := sc_request ts pi ba x mod hmod
   unfold scDecode
   simp only [hspp]
   have hp : (⟨ts, mod.1, mod.2.1, pi, mod.2.2.2.1, (scParams ts pi mod).planar⟩ : Params) = scParams ts pi mod := rfl
   rw [hp]
   have htsp : (scParams ts pi mod).ts ∈ nativeSyntaxes := hts
   by_cases hb1 : ba = 1
-  · have hba : (scParams ts pi mod).bitsAllocated = 1 := by rw [hBA, hb1]; decide
+  · have hba : (scParams ts pi mod).bitsAllocated = 1 := by rw [hBA, hb1]
     exact (Codec.native_bits_roundtrip c conv (scParams ts pi mod) x bytes hwf htsp hba henc).1
-  · have hba : (scParams ts pi mod).bitsAllocated ≠ 1 := by
-      rw [hBA]; split <;> omega
-    -- the values fit the stored bits
-    have hfit : FitsStored (scParams ts pi mod) x := by
-      intro v hv
-      rw [hpr, hBS]
-      simp only [show ¬ ((0 : Int) = 1) by decide, ↓reduceIte]
-      obtain ⟨hlo, hhi⟩ := hwf.2 v hv
-      have hmx := le_frame_max x v hv
-      rcases hdt with ⟨hd, hb⟩ | ⟨hd, hb⟩ | ⟨hd, hb⟩
-      · exact absurd hb hb1
-      · rw [hd] at hlo hhi; simp only [DType.lo, DType.hi] at hlo hhi
-        subst hb; simp only [show ¬ ((8 : Int) = 12) by decide, ↓reduceIte]
-        constructor
-        · exact hlo
-        · have : (2 : Int) ^ (8 : Int).toNat = 256 := by decide
-          rw [this]; omega
-      · rw [hd] at hlo hhi; simp only [DType.lo, DType.hi] at hlo hhi
-        rcases hb with hb | hb
-        · have := h12 hb
-          subst hb; simp only [↓reduceIte]
-          constructor
-          · exact hlo
-          · have e : (2 : Int) ^ (12 : Int).toNat = 4096 := by decide
-            rw [e]; omega
-        · subst hb; simp only [show ¬ ((16 : Int) = 12) by decide, ↓reduceIte]
-          constructor
-          · exact hlo
-          · have e : (2 : Int) ^ (16 : Int).toNat = 65536 := by decide
-            rw [e]; omega
+  · have hba : (scParams ts pi mod).bitsAllocated ≠ 1 := by rw [hBA]; exact hb1
+    have hmul : (scParams ts pi mod).bitsAllocated % 8 = 0 := by
+      rw [hBA]
+      rcases hdt with ⟨_, hb⟩ | ⟨_, hb⟩ | ⟨_, hb | hb⟩ <;> omega
     have hnc : convertsColour (scParams ts pi mod).pi x.spp = false := by
       have : (scParams ts pi mod).pi = pi := rfl
       rw [this]
@@ -507,15 +482,56 @@ theorem sc_native_decodes (c : CodecImpl) (conv : List Int → List Int) (ts pi 
           · exact absurd h hpi
         subst this; simp
       · rw [h1]; simp
-    have := (native_cells_decode c conv (scParams ts pi mod) x bytes hwf htsp hba henc).2.1
+    have := (native_cells_decode c conv (scParams ts pi mod) x bytes hwf htsp hba hmul henc).2.1
     simpa [hnc] using this
+
+/-- **As the code is**: a secondary capture built with `bits_allocated = 12` carries Bits Allocated 12; no decoder
+    conforming to PS3.5 8.1.1 accepts the data set (pydicom raises). -/
+theorem sc_twelve_undecodable (c : CodecImpl) (conv : List Int → List Int) (ts pi : String) (x : Frame) (o : SCObject)
+    (hts : ts ∈ nativeSyntaxes) (h : scBuild c ts pi 12 x = .ok o) : scDecode c conv ts o = .error .value := by
+  obtain ⟨mod, bytes, hmod, henc, rfl⟩ := scBuild_ok c ts pi 12 x o h
+  obtain ⟨hspp, hpr, hBA, hBS, hdt, hshape⟩ := sc_request ts pi 12 x mod hmod
+  have hs := scPixelModule_sound _ _ _ _ _ _ _ _ hmod
+  unfold scDecode
+  simp only [hspp]
+  have hp : (⟨ts, mod.1, mod.2.1, pi, mod.2.2.2.1, (scParams ts pi mod).planar⟩ : Params) = scParams ts pi mod := rfl
+  rw [hp]
+  -- decode side: route 2 (native, not 1 bit), then pydicom refuses the bits allocated
+  have hspp1 : x.spp = 1 := by
+    rcases hshape with ⟨h3, _⟩ | ⟨h1, _⟩
+    · exfalso
+      rcases hs.shape with ⟨_, _, h8, _⟩ | ⟨h2, _⟩
+      · exact absurd h8 (by decide)
+      · have := hs.shape
+        unfold Frame.spp at h3; unfold Frame.ndim at h2
+        cases hsm : x.samples <;> simp [hsm] at h3 h2
+    · exact h1
+  have hmono : pi = "MONOCHROME1" ∨ pi = "MONOCHROME2" := by
+    rcases hshape with ⟨h3, _⟩ | ⟨_, hm⟩
+    · omega
+    · exact hm
+  have hroute : decodeFrameRoute (isEncapsulated (scParams ts pi mod).ts) (scParams ts pi mod).bitsAllocated (x.spp : Int)
+      (scParams ts pi mod).pi (scParams ts pi mod).pixelRepresentation (scParams ts pi mod).planar = .ok 2 := by
+    have henc' : isEncapsulated (scParams ts pi mod).ts = false := isEncapsulated_native _ hts
+    rw [henc', hBA, hpr, hspp1]
+    have hpi' : (scParams ts pi mod).pi = pi := rfl
+    rw [hpi']
+    have := decodeRoute_pydicom false 12 ((1 : Nat) : Int) pi 0 (scParams ts pi mod).planar (Or.inr (by decide)) (Or.inl rfl)
+      (by unfold knownPI monoPI; rcases hmono with h | h <;> simp [h]) (by intro h; simp at h)
+    simpa using this
+  unfold decodeFrame
+  rw [hroute]
+  simp only [bind, Except.bind]
+  have h21 : ¬ ((2 : Int) = 1) := by decide
+  simp only [h21, ↓reduceIte]
+  exact pydicomNative_refuses_allocated conv _ _ _ _ _ (by rw [hBA]; decide)
 
 /-- the same through a lossless codec (RLE, JPEG-LS) -/
 theorem sc_encapsulated_decodes (c : CodecImpl) (hc : c.Lossless) (conv : List Int → List Int) (ts pi : String) (ba : Int)
     (x : Frame) (o : SCObject) (hts : isEncapsulated ts = true) (hnc : convertsColour pi x.spp = false)
     (h : scBuild c ts pi ba x = .ok o) : scDecode c conv ts o = .ok x.data := by
   obtain ⟨mod, bytes, hmod, henc, rfl⟩ := scBuild_ok c ts pi ba x o h
-  obtain ⟨hspp, _, _, _, _, _, _⟩ := sc_request ts pi ba x mod hmod
+  obtain ⟨hspp, _, _, _, _, _⟩ := sc_request ts pi ba x mod hmod
   unfold scDecode
   simp only [hspp]
   have hp : (⟨ts, mod.1, mod.2.1, pi, mod.2.2.2.1, (scParams ts pi mod).planar⟩ : Params) = scParams ts pi mod := rfl
